@@ -35,6 +35,27 @@ UNITS = (0, 1, 2)
 HALF_OUT = {0: PI, 1: L(648000), 2: L(648000)}      # the half turn in gcirc's output unit
 
 
+# Deviations named in SkyGeom.tla that are reported to the lead (reproduction + proposed patch /tmp/fixes/C18-r7-1.patch) but not
+# yet registered in known_findings.json nor fixed in pydl.  Cases that the spec's deviation operator explains EXACTLY are listed as
+# PENDING-FINDING lines and in the evidence samples instead of VIOLATION lines.  EMPTY THIS SET once the finding is registered or
+# the fix is applied: the check is then strict again (nothing else depends on it).
+PENDING = set()
+_pending = {}
+
+
+def report(ctx, case, dev):
+    if dev in PENDING and not any(f.get('id') == dev and f.get('status') == 'known' for f in ctx.findings):
+        _pending.setdefault(dev, []).append(case)
+        return
+    ctx.violation(case, finding=dev or None)
+
+
+def flush_pending(ctx):
+    for dev, cases in sorted(_pending.items()):
+        print('PENDING-FINDING: property=%s %s (%d cases this run), e.g. %s' % (ctx.pid, dev, len(cases), str(cases[0].get('what'))[:260]), flush=True)
+        ctx.sample({'pending_finding': dev, 'cases': len(cases), 'first': cases[0].get('what')})
+
+
 # ------------------------------------------------------------------ the independent oracle
 def o_vec(lon, lat):
     """unit vectors (longdouble) of longitudes / latitudes given in longdouble radians"""
@@ -122,41 +143,56 @@ def call_gcirc(ra1, dec1, ra2, dec2, units):
         return gcirc(ra1, dec1, ra2, dec2, units=units)
 
 
-def to_icrs(stripe, mu, nu):
+def dist_kw(dist):
+    """the distance (parsec; None = the object carries none) as the keyword of a coordinate object"""
+    import astropy.units as u
+    return {} if dist is None else {'distance': np.asarray(dist, dtype=float) * u.pc}
+
+
+def to_icrs(stripe, mu, nu, dist=None):
     import astropy.units as u
     from astropy.coordinates import ICRS, SkyCoord
     from pydl.pydlutils.coord import SDSSMuNu
     with np.errstate(all='ignore'):
         c = SkyCoord(mu=np.asarray(mu, dtype=float) * u.deg, nu=np.asarray(nu, dtype=float) * u.deg,
-                     frame=SDSSMuNu(stripe=stripe)).transform_to(ICRS())
+                     frame=SDSSMuNu(stripe=stripe), **dist_kw(dist)).transform_to(ICRS())
         return np.atleast_1d(c.ra.deg).astype(float), np.atleast_1d(c.dec.deg).astype(float)
 
 
-def to_munu(stripe, ra, dec):
+def to_munu(stripe, ra, dec, dist=None):
     import astropy.units as u
     from astropy.coordinates import SkyCoord
     from pydl.pydlutils.coord import SDSSMuNu
     with np.errstate(all='ignore'):
         c = SkyCoord(ra=np.asarray(ra, dtype=float) * u.deg, dec=np.asarray(dec, dtype=float) * u.deg,
-                     frame='icrs').transform_to(SDSSMuNu(stripe=stripe))
+                     frame='icrs', **dist_kw(dist)).transform_to(SDSSMuNu(stripe=stripe))
         return np.atleast_1d(c.mu.deg).astype(float), np.atleast_1d(c.nu.deg).astype(float)
 
 
+def carrier_class(d):
+    """class of what an object carries besides the direction (SkyGeom.tla CarrierClasses); d = parsec or None"""
+    return 'direction' if d is None else 'nearer' if d < 1 else 'unit' if d == 1 else 'farther'
+
+
+def pair_carrier(a, b):
+    return a if a == b else 'mixed'
+
+
 # ---- coordinate OBJECTS that are handed to several transforms (caller-object laws) -------------
-def make_icrs(ra, dec, which='skycoord', form=None):
+def make_icrs(ra, dec, which='skycoord', form=None, dist=None):
     """an ICRS coordinate object (SkyCoord or bare frame); array-valued unless ra is a float; form = integer
-    dtype of the arrays handed to astropy"""
+    dtype of the arrays handed to astropy; dist = distances (parsec) the object carries as well"""
     import astropy.units as u
     from astropy.coordinates import ICRS, SkyCoord
     f1, f2 = form if isinstance(form, (tuple, list)) else (form, form)
     ra = np.array(ra, dtype=float) if f1 is None else as_form(ra, f1, True)
     dec = np.array(dec, dtype=float) if f2 is None else as_form(dec, f2, True)
     if which == 'frame':
-        return ICRS(ra=ra * u.deg, dec=dec * u.deg)
-    return SkyCoord(ra=ra * u.deg, dec=dec * u.deg, frame='icrs')
+        return ICRS(ra=ra * u.deg, dec=dec * u.deg, **dist_kw(dist))
+    return SkyCoord(ra=ra * u.deg, dec=dec * u.deg, frame='icrs', **dist_kw(dist))
 
 
-def make_munu(stripe, mu, nu, which='skycoord', form=None):
+def make_munu(stripe, mu, nu, which='skycoord', form=None, dist=None):
     import astropy.units as u
     from astropy.coordinates import SkyCoord
     from pydl.pydlutils.coord import SDSSMuNu
@@ -164,8 +200,8 @@ def make_munu(stripe, mu, nu, which='skycoord', form=None):
     mu = np.array(mu, dtype=float) if f1 is None else as_form(mu, f1, True)
     nu = np.array(nu, dtype=float) if f2 is None else as_form(nu, f2, True)
     if which == 'frame':
-        return SDSSMuNu(mu=mu * u.deg, nu=nu * u.deg, stripe=stripe)
-    return SkyCoord(mu=mu * u.deg, nu=nu * u.deg, frame=SDSSMuNu(stripe=stripe))
+        return SDSSMuNu(mu=mu * u.deg, nu=nu * u.deg, stripe=stripe, **dist_kw(dist))
+    return SkyCoord(mu=mu * u.deg, nu=nu * u.deg, frame=SDSSMuNu(stripe=stripe), **dist_kw(dist))
 
 
 def coord_values(obj):
@@ -253,6 +289,24 @@ def gcirc_mixed_args(vals, form, mix, array):
 
 def mix_ok(mix, form):
     return form == 'pyint' if mix.startswith('pyint-') else (form != 'pyint' or mix == 'all')
+
+
+FLOAT_DTYPES = {'float32': np.float32, 'longdouble': np.longdouble, 'float64': np.float64}
+FLOAT_MIX_ARGS = {'all': (0, 1, 2, 3), 'ra': (0, 2), 'dec': (1, 3), 'p1': (0, 1), 'p2': (2, 3)}
+
+
+def as_float_form(v, form, array=False):
+    """the value(s) v (Python floats) as a numpy scalar / array of the float type `form`; the conversion must be exact"""
+    t = FLOAT_DTYPES[form]
+    a = np.array(v, dtype=np.float64).astype(t)
+    if not np.all(a.astype(np.longdouble) == np.array(v, dtype=np.float64).astype(np.longdouble)):
+        raise core.MachineryError('value %r is not exactly a %s number' % (v, form))
+    return a if array else t(a[()])
+
+
+def gcirc_float_args(vals, form, mix, array):
+    """the four gcirc arguments with the float type `form` given to the arguments `mix` names, float64 to the others"""
+    return [as_float_form(v, form if k in FLOAT_MIX_ARGS[mix] else 'float64', array) for k, v in enumerate(vals)]
 
 
 def pick_form(forms, n, array=False):
@@ -347,6 +401,17 @@ def _anchor_eval(stripe, direction, lon, lat, shape, cache):
         now = coord_values(obj)
         kept = (now[0] == lon) & (now[1] == lat)
         shok[:] = res.shape == (n,)
+    elif isinstance(shape, tuple) and shape and shape[0] == 'dist':
+        # the same directions in ONE object that also carries distances (rotating through the carriers TLC admits,
+        # so one object holds distances below, at and above the unit), as a SkyCoord or as a bare frame
+        _, d8s, which = shape
+        dist = np.array([d8s[(j + stripe) % len(d8s)] / 8.0 for j in range(n)])
+        obj = make_munu(stripe, lon, lat, which, dist=dist) if direction == 'fwd' else make_icrs(lon, lat, which, dist=dist)
+        res = run(obj)
+        glon, glat = coord_values(res)
+        now = coord_values(obj)
+        kept = (now[0] == lon) & (now[1] == lat)
+        shok[:] = res.shape == (n,)
     elif shape == 'scalar':
         for j in range(n):
             obj = build(lon[j], lat[j])
@@ -382,7 +447,9 @@ def replay_anchor_group(stripe, direction, group, cache=None, shape=None):
     lat = [e['src']['lat'] / 10.0 for _, e in group]
     cache = {} if cache is None else cache
     form = ('1-D array' if shape is None else shape if shape == 'scalar' else
-            '%s array (%s), stripe as %s' % (shape[1], shape[3] if len(shape) > 3 else 'all', shape[2]) if shape[0] == 'int' else 'array of shape %s' % (tuple(shape),))
+            '%s array (%s), stripe as %s' % (shape[1], shape[3] if len(shape) > 3 else 'all', shape[2]) if shape[0] == 'int' else
+            '1-D %s that also carries distances (eighths of a parsec, rotating from element %d) %s' % (shape[2], stripe % len(shape[1]), list(shape[1]))
+            if shape[0] == 'dist' else 'array of shape %s' % (tuple(shape),))
     try:
         glon, glat, kept, shok = _anchor_eval(stripe, direction, lon, lat, shape, cache)
     except Exception as ex:
@@ -454,8 +521,28 @@ def replay_dist(c, exp, n=0):
             else:
                 calls.append(('%s for %s, others float64' % (form, mix), False, gcirc_mixed_args(a, form, mix, False)))
                 calls.append(('%s for %s, others float64' % (form, mix), True, gcirc_mixed_args([[v, v] for v in a], form, mix, True)))
+    # the same values in the other floating-point types TLC admits for the case: all four arguments (scalars and
+    # arrays), and the type given to a subset of the arguments only (rotating through the subsets TLC names)
+    fmixes = [m for m in sorted(exp.get('fmixes', ())) if m != 'all']
+    prec = {}                                      # label of a call -> the precision class TLC gives the float form
+    for q, ff in enumerate(sorted(exp.get('fforms', ()))):
+        if exp['fprec'][ff] == 'double' and n % 3:          # the extended-precision forms for every third case
+            continue
+        calls.append((ff, False, gcirc_float_args(a, ff, 'all', False)))
+        calls.append((ff, True, gcirc_float_args([[v, v] for v in a], ff, 'all', True)))
+        prec[ff] = exp['fprec'][ff]
+        if fmixes:
+            mix = fmixes[(n + q) % len(fmixes)]
+            arr = (n // len(fmixes)) % 2 == 0
+            calls.append(('%s for %s, others float64' % (ff, mix), arr, gcirc_float_args([[v, v] for v in a] if arr else a, ff, mix, arr)))
+            prec[calls[-1][0]] = exp['fprec'][ff]
     obs, fails = None, []
     for fm, arr, args in calls:
+        single = prec.get(fm) == 'single'          # single-precision input: the tolerances TLC states for it
+        tolppb = exp['stolppb'] if single else exp['tolppb']
+        symppb = exp['ssymppb'] if single else exp['tolppb']
+        slackppb = exp['sslackppb'] if single else exp['slackppb']
+        demand = exp['sdemand'] if single else exp['demand']
         try:
             got = call_gcirc(args[0], args[1], args[2], args[3], u)
             rev = call_gcirc(args[2], args[3], args[0], args[1], u)
@@ -472,21 +559,22 @@ def replay_dist(c, exp, n=0):
         if got != got or rev != rev or math.isinf(got) or math.isinf(rev):
             f.append('NaN' if (got != got or rev != rev) else 'Infinite')
         else:
-            if got < 0 or L(got) > HALF_OUT[u] * (1 + L(exp['slackppb']) * L(1e-9)):
+            if got < 0 or L(got) > HALF_OUT[u] * (1 + L(slackppb) * L(1e-9)):
                 f.append('Range')
-            if abs(got - rev) > exp['tolppb'] * 1e-9 * max(abs(got), abs(rev)):
+            if abs(got - rev) > symppb * 1e-9 * max(abs(got), abs(rev)):
                 f.append('Symmetric')
             if exp['zero'] and got != 0.0:
                 f.append('ZeroOnDiagonal')
-            if exp['demand']:
+            if demand:
                 err = abs(Fraction(got) - want)
                 o['rel_err'] = float(err / want)
-                if err > Fraction(exp['tolppb'], 10 ** 9) * want:
+                if err > Fraction(tolppb, 10 ** 9) * want:
                     f.append('Exact')
         o['fails'] = f
         if obs is None or (not fails and f):
             obs, fails = o, f
-    dev = 'D-C18-1' if (fails == ['Exact'] and exp['dev1'] and obs['given_as'].startswith('float64')) else None
+    dev = ('D-C18-1' if (fails == ['Exact'] and exp['dev1'] and obs['given_as'].startswith('float64')) else
+           'D-C18-7' if (fails == ['NaN'] and exp['dev7'] and not obs['given_as'].startswith('float64')) else None)
     return not fails, obs, dev
 
 
@@ -588,6 +676,11 @@ def replay_cases(ctx, cases, geo):
             sform = pick_form(geo['stripe_forms'][s], s + (2 if d == 'inv' else 0))
             isub = [j for j in range(len(part)) if form in part[j][1]['forms']]
             ints = dict(zip(isub, replay_anchor_group(s, d, [part[j] for j in isub], cache, ('int', form, sform, ['all', 'lon', 'lat'][(s + (1 if d == 'inv' else 0)) % 3])))) if isub else {}
+            # ... and in an object that carries distances as well (every carrier TLC admits for the anchor)
+            d8s = tuple(sorted(set.intersection(*[set(e['carriers']) for _, e in part]) - {0}))
+            if not d8s:
+                raise core.MachineryError('anchors of stripe %d admit no carrier with a distance' % s)
+            forms.append(replay_anchor_group(s, d, part, cache, ('dist', d8s, 'frame' if (s + (d == 'inv')) % 2 else 'skycoord')))
             for j, (c, exp) in enumerate(part):
                 cands = [f[j] for f in forms] + ([scal[j]] if j in scal else []) + ([ints[j]] if j in ints else [])
                 bad = [r for r in cands if not r[0]]
@@ -609,8 +702,8 @@ def replay_cases(ctx, cases, geo):
         if n % 5000 == 1 and n < 12000:
             ctx.sample({'case': jsonable(c), 'specified': jsonable(exp), 'observed': obs})
         if not good:
-            ctx.violation({'what': describe(c, exp, obs), 'case': jsonable(c), 'expected': jsonable(exp),
-                           'observed': obs}, finding=dev)
+            report(ctx, {'what': describe(c, exp, obs), 'case': jsonable(c), 'expected': jsonable(exp),
+                         'observed': obs}, dev)
     return len(results)
 
 
@@ -729,16 +822,32 @@ def conventions(p):
     return {0: r, 1: h, 2: d}, hexact
 
 
-def gc_records(pairs, nchunk=1):
+def single_pairs(pairs):
+    """the pairs whose native coordinates are rounded to single precision (the points ARE those values)"""
+    out = []
+    for p in pairs:
+        q = dict(p)
+        for k in ('ra1', 'dec1', 'ra2', 'dec2'):
+            q[k] = float(np.float32(p[k]))
+        out.append(q)
+    return out
+
+
+def gc_records(pairs, nchunk=1, single=False):
     """Run gcirc on every pair in the three conventions (vectorised per convention, both argument orders)
-    and build the records."""
+    and build the records.  single: the coordinates of every convention are handed over as float32 arrays; the
+    points of a convention are then the single-precision values (oracle and class attributes are theirs)."""
     n = len(pairs)
     conv = [conventions(p) for p in pairs]
+    if single:
+        conv = [({u: tuple(float(np.float32(v)) for v in cv[0][u]) for u in UNITS}, False) for cv in conv]
     res, rev, ora = {}, {}, {}
     unch = []
     bounds = [round(k * n / nchunk) for k in range(nchunk + 1)]
     for u in UNITS:
         cols = [np.array([cv[0][u][j] for cv in conv], dtype=np.float64) for j in range(4)]
+        if single:
+            cols = [as_float_form(c, 'float32', True) for c in cols]
         res[u] = np.empty(n)
         rev[u] = np.empty(n)
         for lo, hi in zip(bounds[:-1], bounds[1:]):
@@ -771,7 +880,7 @@ def gc_records(pairs, nchunk=1):
                'seam': abs(a[2] - a[0]) > turn / 2,
                'uas': scaled_floor(sep_deg * L(3.6e9)), 'sepdeg': int(math.floor(float(sep_deg))),
                'sepbin': floorlog2(sep_deg), 'colatbin': floorlog2(colat_deg),
-               'nan': [], 'neg': [], 'zero': [], 'over': [], 'vec': [], 'sym': [], 'hexact': conv[j][1]}
+               'nan': [], 'neg': [], 'zero': [], 'over': [], 'vec': [], 'sym': [], 'hexact': conv[j][1], 'single': bool(single)}
         outs = {}
         for u in UNITS:
             g, r = float(res[u][j]), float(rev[u][j])
@@ -816,6 +925,7 @@ def stripe_records():
 def munu_records(rng, geo, npts):
     """round trips, isometry and nu = 0 probes for every stripe 0..90"""
     recs, info = [], []
+    ncarry = max(8, npts)          # elements of the batches that are also handed over in an object carrying distances
     for s in range(0, 91):
         pole = geo['pole_eq'][s]
         e1 = geo['e1'][s]
@@ -827,45 +937,57 @@ def munu_records(rng, geo, npts):
         dec += [pole[1], -pole[1], max(-90.0, pole[1] - 10 ** rng.uniform(-9, -2)), min(90.0, pole[1] + 10 ** rng.uniform(-9, -2)),
                 e1[1], e2[1], rng.uniform(-80, 80), rng.uniform(-80, 80), 90.0, -90.0]
         ra, dec = np.array(ra), np.array(dec)
-        mu, nu = to_munu(s, ra, dec)
-        ra2, dec2 = to_icrs(s, mu, nu)
-        sep = deg_sep(ra, dec, ra2, dec2)
-        for j in range(len(ra)):
-            isnan = bool(np.isnan([mu[j], nu[j], ra2[j], dec2[j]]).any())
-            polar = bool(abs(dec[j]) > 89.9 or (not np.isnan(nu[j]) and abs(nu[j]) > 89.9)
-                         or min(float(deg_sep(ra[j], dec[j], pole[0], pole[1])), float(deg_sep(ra[j], dec[j], pole[0] + 180, -pole[1]))) < 0.1)
-            recs.append({'kind': 'rt', 'dir': 'icrs', 'stripe': s, 'array': True, 'use': 0, 'nan': isnan, 'polar': polar,
-                         'disc': CAP if isnan else ndeg(sep[j])})
-            info.append({'probe': 'rt-icrs', 'stripe': s, 'ra': float(ra[j]), 'dec': float(dec[j]), 'mu': float(mu[j]),
-                         'nu': float(nu[j]), 'ra_back': float(ra2[j]), 'dec_back': float(dec2[j])})
-        # --- isometry: consecutive points of the same batch
-        k = len(ra)
-        a, b = np.arange(0, k - 1), np.arange(1, k)
-        s_eq = deg_sep(ra[a], dec[a], ra[b], dec[b])
-        s_mn = deg_sep(mu[a], nu[a], mu[b], nu[b])
-        for j in range(k - 1):
-            isnan = bool(np.isnan([mu[j], nu[j], mu[j + 1], nu[j + 1]]).any())
-            recs_polar = _rt_polar(recs, k, j)
-            recs.append({'kind': 'iso', 'stripe': s, 'nan': isnan, 'polar': recs_polar,
-                         'disc': CAP if isnan else ndeg(s_eq[j] - s_mn[j])})
-            info.append({'probe': 'iso', 'stripe': s, 'p': [float(ra[j]), float(dec[j])], 'q': [float(ra[j + 1]), float(dec[j + 1])],
-                         'p_munu': [float(mu[j]), float(nu[j])], 'q_munu': [float(mu[j + 1]), float(nu[j + 1])]})
+        # the batch as bare directions, then the same directions in an object that also carries distances
+        ra_all, dec_all = ra, dec
+        for dist in (None, carrier_dists(rng, min(len(ra), ncarry), s)):
+            ra, dec = (ra_all, dec_all) if dist is None else (ra_all[:len(dist)], dec_all[:len(dist)])
+            mu, nu = to_munu(s, ra, dec, dist)
+            ra2, dec2 = to_icrs(s, mu, nu)
+            sep = deg_sep(ra, dec, ra2, dec2)
+            dj = [None] * len(ra) if dist is None else [float(x) for x in dist]
+            for j in range(len(ra)):
+                isnan = bool(np.isnan([mu[j], nu[j], ra2[j], dec2[j]]).any())
+                polar = bool(abs(dec[j]) > 89.9 or (not np.isnan(nu[j]) and abs(nu[j]) > 89.9)
+                             or min(float(deg_sep(ra[j], dec[j], pole[0], pole[1])), float(deg_sep(ra[j], dec[j], pole[0] + 180, -pole[1]))) < 0.1)
+                recs.append({'kind': 'rt', 'dir': 'icrs', 'stripe': s, 'array': True, 'use': 0, 'nan': isnan, 'polar': polar,
+                             'disc': CAP if isnan else ndeg(sep[j]), 'carrier': carrier_class(dj[j])})
+                info.append({'probe': 'rt-icrs', 'stripe': s, 'ra': float(ra[j]), 'dec': float(dec[j]), 'mu': float(mu[j]),
+                             'nu': float(nu[j]), 'ra_back': float(ra2[j]), 'dec_back': float(dec2[j]), 'dist_pc': dj[j] or 0.0})
+            # --- isometry: consecutive points of the same batch
+            k = len(ra)
+            a, b = np.arange(0, k - 1), np.arange(1, k)
+            s_eq = deg_sep(ra[a], dec[a], ra[b], dec[b])
+            s_mn = deg_sep(mu[a], nu[a], mu[b], nu[b])
+            for j in range(k - 1):
+                isnan = bool(np.isnan([mu[j], nu[j], mu[j + 1], nu[j + 1]]).any())
+                recs_polar = _rt_polar(recs, k, j)
+                recs.append({'kind': 'iso', 'stripe': s, 'nan': isnan, 'polar': recs_polar,
+                             'disc': CAP if isnan else ndeg(s_eq[j] - s_mn[j]),
+                             'carrier': pair_carrier(carrier_class(dj[j]), carrier_class(dj[j + 1]))})
+                info.append({'probe': 'iso', 'stripe': s, 'p': [float(ra[j]), float(dec[j])], 'q': [float(ra[j + 1]), float(dec[j + 1])],
+                             'p_munu': [float(mu[j]), float(nu[j])], 'q_munu': [float(mu[j + 1]), float(nu[j + 1])],
+                             'dist_pc': [dj[j] or 0.0, dj[j + 1] or 0.0]})
         # --- (mu, nu) -> ICRS -> (mu, nu)
         node = geo['node10'] / 10.0
         m_in = [rng.uniform(0, 360) for _ in range(npts)] + [node, node + 90.0, 0.0, 300.0, rng.uniform(0, 360), 359.999999999]
         n_in = [math.degrees(math.asin(rng.uniform(-1, 1))) for _ in range(npts)] + [0.0, 0.0, 90.0, -90.0,
                                                                                      90.0 - 10 ** rng.uniform(-9, -2), 0.0]
         m_in, n_in = np.array(m_in), np.array(n_in)
-        r3, d3 = to_icrs(s, m_in, n_in)
-        m4, n4 = to_munu(s, r3, d3)
-        sep = deg_sep(m_in, n_in, m4, n4)
-        for j in range(len(m_in)):
-            isnan = bool(np.isnan([r3[j], d3[j], m4[j], n4[j]]).any())
-            polar = bool(abs(n_in[j]) > 89.9 or (not np.isnan(d3[j]) and abs(d3[j]) > 89.9))
-            recs.append({'kind': 'rt', 'dir': 'munu', 'stripe': s, 'array': True, 'use': 0, 'nan': isnan, 'polar': polar,
-                         'disc': CAP if isnan else ndeg(sep[j])})
-            info.append({'probe': 'rt-munu', 'stripe': s, 'mu': float(m_in[j]), 'nu': float(n_in[j]), 'ra': float(r3[j]),
-                         'dec': float(d3[j]), 'mu_back': float(m4[j]), 'nu_back': float(n4[j])})
+        # the (mu, nu) object as bare directions / carrying distances; the distances are also given to the ICRS object going back
+        m_all, n_all = m_in, n_in
+        for dist in (None, carrier_dists(rng, min(len(m_in), ncarry - 2), s + 1)):
+            m_in, n_in = (m_all, n_all) if dist is None else (m_all[:len(dist)], n_all[:len(dist)])
+            r3, d3 = to_icrs(s, m_in, n_in, dist)
+            m4, n4 = to_munu(s, r3, d3, dist)
+            sep = deg_sep(m_in, n_in, m4, n4)
+            dj = [None] * len(m_in) if dist is None else [float(x) for x in dist]
+            for j in range(len(m_in)):
+                isnan = bool(np.isnan([r3[j], d3[j], m4[j], n4[j]]).any())
+                polar = bool(abs(n_in[j]) > 89.9 or (not np.isnan(d3[j]) and abs(d3[j]) > 89.9))
+                recs.append({'kind': 'rt', 'dir': 'munu', 'stripe': s, 'array': True, 'use': 0, 'nan': isnan, 'polar': polar,
+                             'disc': CAP if isnan else ndeg(sep[j]), 'carrier': carrier_class(dj[j])})
+                info.append({'probe': 'rt-munu', 'stripe': s, 'mu': float(m_in[j]), 'nu': float(n_in[j]), 'ra': float(r3[j]),
+                             'dec': float(d3[j]), 'mu_back': float(m4[j]), 'nu_back': float(n4[j]), 'dist_pc': dj[j] or 0.0})
         # --- nu = 0 is the great circle with pole `pole`: distance of the image from that plane
         m0 = np.array([rng.uniform(0, 360) for _ in range(max(4, npts // 2))] + [node, node + 90.0, node + 180.0, node + 270.0])
         r5, d5 = to_icrs(s, m0, np.zeros(len(m0)))
@@ -873,7 +995,7 @@ def munu_records(rng, geo, npts):
         for j in range(len(m0)):
             isnan = bool(np.isnan([r5[j], d5[j]]).any())
             recs.append({'kind': 'nu0', 'dir': 'fwd', 'stripe': s, 'nan': isnan, 'polar': bool(abs(d5[j]) > 89.9),
-                         'disc': CAP if isnan else ndeg(off[j])})
+                         'disc': CAP if isnan else ndeg(off[j]), 'carrier': 'direction'})
             info.append({'probe': 'nu0-fwd', 'stripe': s, 'mu': float(m0[j]), 'ra': float(r5[j]), 'dec': float(d5[j]),
                          'circle_pole': list(pole)})
         # --- points of that great circle (oracle: cos t e1 + sin t e2) have nu = 0
@@ -883,15 +1005,27 @@ def munu_records(rng, geo, npts):
         v = np.cos(t)[:, None] * v1[None, :] + np.sin(t)[:, None] * v2[None, :]
         r6 = np.array((np.arctan2(v[:, 1], v[:, 0]) * R2D).astype(np.float64)) % 360.0
         d6 = np.array((np.arcsin(np.clip(v[:, 2], -1, 1)) * R2D).astype(np.float64))
-        m7, n7 = to_munu(s, r6, d6)
-        for j in range(len(t)):
-            isnan = bool(np.isnan([m7[j], n7[j]]).any())
-            # the float (ra, dec) handed to the code is the circle point only to ~1e-6 deg within 0.1 deg of a pole
-            recs.append({'kind': 'nu0', 'dir': 'inv', 'stripe': s, 'nan': isnan, 'polar': bool(abs(d6[j]) > 89.9),
-                         'disc': CAP if isnan else ndeg(n7[j])})
-            info.append({'probe': 'nu0-inv', 'stripe': s, 'ra': float(r6[j]), 'dec': float(d6[j]), 'mu': float(m7[j]),
-                         'nu': float(n7[j])})
+        for dist in (None, carrier_dists(rng, min(len(t), 3), s + 2)):
+            m7, n7 = to_munu(s, r6, d6, dist) if dist is None else to_munu(s, r6[:len(dist)], d6[:len(dist)], dist)
+            dj = [None] * len(t) if dist is None else [float(x) for x in dist]
+            for j in range(len(dj)):
+                isnan = bool(np.isnan([m7[j], n7[j]]).any())
+                # the float (ra, dec) handed to the code is the circle point only to ~1e-6 deg within 0.1 deg of a pole
+                recs.append({'kind': 'nu0', 'dir': 'inv', 'stripe': s, 'nan': isnan, 'polar': bool(abs(d6[j]) > 89.9),
+                             'disc': CAP if isnan else ndeg(n7[j]), 'carrier': carrier_class(dj[j])})
+                info.append({'probe': 'nu0-inv', 'stripe': s, 'ra': float(r6[j]), 'dec': float(d6[j]), 'mu': float(m7[j]),
+                             'nu': float(n7[j]), 'dist_pc': dj[j] or 0.0})
     return recs, info
+
+
+def carrier_dists(rng, n, phase):
+    """distances (parsec) for the n elements of one coordinate object: runs of two below, at and above the unit of
+    length (so consecutive elements form pairs of every carrier class), seeded values from 0.1 pc to 1 kpc"""
+    out = []
+    for j in range(n):
+        c = ((j + 2 * phase) // 2) % 3
+        out.append(10 ** rng.uniform(-1, -0.01) if c == 0 else 1.0 if c == 1 else 10 ** rng.uniform(0.01, 3))
+    return np.array(out)
 
 
 def _rt_polar(recs, k, j):
@@ -994,7 +1128,7 @@ def icrs_sequence(which, ra0, dec0, seq):
         polar = bool((np.abs(d0) > 89.9).any() or (np.abs(nu[~np.isnan(nu)]) > 89.9).any())
         disc = CAP if isnan else max(ndeg(x) for x in np.atleast_1d(deg_sep(r0, d0, ra2, dec2)))
         yield ({'kind': 'rt', 'dir': 'icrs', 'stripe': s, 'array': array, 'use': use, 'nan': isnan, 'polar': polar,
-                'disc': disc}, use)
+                'disc': disc, 'carrier': 'direction'}, use)
 
 
 def munu_sequence(which, stripe, mu0, nu0, times):
@@ -1017,7 +1151,7 @@ def munu_sequence(which, stripe, mu0, nu0, times):
         polar = bool((np.abs(n0) > 89.9).any() or (np.abs(dec[~np.isnan(dec)]) > 89.9).any())
         disc = CAP if isnan else max(ndeg(x) for x in np.atleast_1d(deg_sep(m0, n0, mu, nu)))
         yield ({'kind': 'rt', 'dir': 'munu', 'stripe': stripe, 'array': array, 'use': use, 'nan': isnan, 'polar': polar,
-                'disc': disc}, use)
+                'disc': disc, 'carrier': 'direction'}, use)
 
 
 def reuse_records(rng, npts, times):
@@ -1344,12 +1478,17 @@ def falsify(rec, k):
         if m == 0:
             r['nan'][k % 3] = True
         elif m == 1:
-            r['sym'][k % 3] = 5000
+            r['sym'][k % 3] = 5000000 if r['single'] else 5000
         elif m == 2:
             r['neg'][k % 3] = True
         else:
             if r['ident']:
                 r['zero'][k % 3] = False
+            elif r['single']:
+                if r['uas'] >= 1 and 1 <= r['sepdeg'] < 179:
+                    r['vec'][k % 3] = 5000000
+                else:
+                    r['over'][k % 3] = 5000
             elif r['uas'] >= 1 and (r['samera'] or r['colatbin'] >= -18 or r['sepbin'] >= -5) and (not r['seam'] or r['sepbin'] >= -18):
                 r['vec'][k % 3] = 5000
             else:
@@ -1611,11 +1750,11 @@ def judge(ctx, recs, minper, label):
     return out
 
 
-def gc_what(p, cv, res, j, why):
+def gc_what(p, cv, res, j, why, single=False):
     u = {'rad': 0, 'hour': 1, 'deg': 2}[p['native']]
     a = cv[0][u]
-    return ('gcirc(%r, %r, %r, %r, units=%d) = %r rejected by Trace_SkyGeom: %s  [%s pair]' %
-            (a[0], a[1], a[2], a[3], u, float(res[u][j]), why.strip(), p['tag']))
+    return ('gcirc(%r, %r, %r, %r, units=%d)%s = %r rejected by Trace_SkyGeom: %s  [%s pair]' %
+            (a[0], a[1], a[2], a[3], u, ' [coordinates as float32 arrays]' if single else '', float(res[u][j]), why.strip(), p['tag']))
 
 
 EXPLANATION = (
@@ -1645,7 +1784,11 @@ def run(ctx):
                 'after the call; ArrayEqualsScalars = the same positions as arrays of shapes (n,), (3,5), (3,3), (2,5), (5,3), '
                 '(2,3,4), (3,2,2), (1,7), (7,1) (gcirc: broadcast pairs of shapes) against one-at-a-time calls, counted per shape class; '
                 'self records = batches of centres of the quarter-degree grid: the point itself and its antipode ((RA+180, -Dec) and the '
-                'negated vector) through cap_distance / is_in_cap (RA,Dec and unit-vector points) and gcirc (three conventions)')
+                'negated vector) through cap_distance / is_in_cap (RA,Dec and unit-vector points) and gcirc (three conventions); '
+                'every exact-distance case is also called with float32 / longdouble coordinates where TLC admits them (all four arguments '
+                'and per-argument subsets), every recorded pair also rounded to single precision and handed over as float32 arrays; every '
+                'anchor group and every recorded batch of every stripe is also handed over in a coordinate object that carries distances '
+                '(below, at and above 1 pc)')
     ctx.assumptions = [
         'IEEE-754 doubles; numpy longdouble is the x87 80-bit format (64-bit mantissa) - checked at start',
         'exact families use coordinates b/8 + m/2^k that are exactly representable, so the separation TLC computes is the '
@@ -1659,7 +1802,14 @@ def run(ctx):
         'vectors, for which r = r^2 = 1, so only (rounded) unit vectors are submitted and nothing is demanded of non-unit ones',
         '"the distance is never NaN, also for coincident and antipodal points" is read to cover mangle.cap_distance (the distance '
         'computed from the angles <-> unit-vector conversions of the same sentence) and is_in_cap through it, as well as gcirc',
-        'stripe_to_eta / stripe_to_incl are given scalar stripes only (the unchanged code does not take arrays; not in the statement)']
+        'stripe_to_eta / stripe_to_incl are given scalar stripes only (the unchanged code does not take arrays; not in the statement)',
+        'single-precision (float32) coordinates are in the domain of gcirc ("all point pairs" does not restrict the type); a single-'
+        'precision input cannot demand more than single precision: NaN-freedom, zero on the diagonal, symmetry (1e-3) and the range '
+        '(+ 240 ppb) everywhere, the value to 1e-4 for separations of 1..179 deg (SkyGeom.tla SingleDemand); float16 is not submitted '
+        '(648000 arcsec is not a float16 number); longdouble coordinates are held to the double-precision demands',
+        'a coordinate object that also carries a DISTANCE is a sky position like any other: its image is the image of its direction '
+        '(SkyGeom.tla 2b); whether the result keeps the distance is left open, only directions are compared. Observation only: a '
+        'frame whose representation_type is cartesian is refused by the unchanged code (AttributeError: no attribute ra) - not submitted']
     if np.finfo(L).nmant < 63:
         raise core.MachineryError('numpy longdouble has only %d mantissa bits' % np.finfo(L).nmant)
     cfg = 'MC_SkyGeom_quick.cfg' if ctx.quick else 'MC_SkyGeom_thorough.cfg'
@@ -1675,6 +1825,11 @@ def run(ctx):
     rng = random.Random(ctx.seed)
     pairs = gen_pairs(rng, 70 if ctx.quick else 1200, 40 if ctx.quick else 600)
     grecs, conv, res, gunch = gc_records(pairs, 4 if ctx.quick else 20)
+    # the same pairs rounded to single precision and handed over as float32 arrays
+    spairs = single_pairs(pairs)
+    sgrecs, sconv, sres, sunch = gc_records(spairs, 4 if ctx.quick else 20, single=True)
+    npair = len(pairs)
+    pairs, grecs, conv, gunch = pairs + spairs, grecs + sgrecs, conv + sconv, gunch + sunch
     srecs = stripe_records()
     mrecs, minfo = munu_records(rng, geo, 6 if ctx.quick else 50)
     vrecs, vinfo = vec_records(rng, 40 if ctx.quick else 600, 3 if ctx.quick else 26)
@@ -1705,8 +1860,9 @@ def run(ctx):
             p = pairs[i - 1]
             ctx.nontriv(('gc', p['tag'], rec['uas'], rec['sepdeg'], i))
             if not ok:
-                ctx.violation({'what': gc_what(p, conv[i - 1], res, i - 1, why), 'record': rec, 'pair': p,
-                               'conventions': {str(u): list(conv[i - 1][0][u]) for u in UNITS}}, finding=dev or None)
+                rr, jj = (res, i - 1) if i <= npair else (sres, i - 1 - npair)
+                report(ctx, {'what': gc_what(p, conv[i - 1], rr, jj, why, rec['single']), 'record': rec, 'pair': p,
+                             'conventions': {str(u): list(conv[i - 1][0][u]) for u in UNITS}}, dev)
         elif i <= len(grecs) + len(srecs):
             ctx.nontriv(('stripe', rec['stripe']))
             if not ok:
@@ -1725,6 +1881,7 @@ def run(ctx):
                                'record': rec, 'probe': inf})
     for law, cnt in sorted(tally.items()):
         ctx.evaluated(cnt, 'law-' + law)
+    flush_pending(ctx)
     ctx.sample({'law_instances_judged_by_TLC': tally})
     ctx.sample({'recorded_gcirc_probe': grecs[0], 'pair': pairs[0]})
     ctx.sample({'recorded_munu_probe': mrecs[0], 'inputs': minfo[0]})
@@ -1755,6 +1912,7 @@ def replay(ctx, case):
             forms = [None, 'scalar'] + ([tuple(sh)] if isinstance(sh, list) else list(ANCHOR_SHAPES[:3]))
             forms += [('int', f, 'pyint' if k % 2 else f, m) for k, f in enumerate(NP_FORMS) if f in exp.get('forms', ())
                       for m in ('all', 'lon', 'lat')]
+            forms += [('dist', (d8,), w) for d8 in sorted(exp.get('carriers', ())) if d8 for w in ('skycoord', 'frame')]
             good, obs, dev = True, None, None
             for f in forms:
                 g, o, dv = replay_anchor_group(c['stripe'], c['dir'], [(c, exp)], None, f)[0]
@@ -1769,7 +1927,7 @@ def replay(ctx, case):
             good, obs, dev = replay_vecanchor(c, exp)
         else:
             good, obs, dev = True, None, None
-            for n in range(max(1, len(exp.get('forms', ())))):
+            for n in range(max(8, len(exp.get('forms', ())))):          # every integer form, every float mix as scalars and arrays
                 g, o, dv = replay_dist(c, exp, n)
                 if obs is None or (good and not g):
                     obs, dev = o, dv
@@ -1779,8 +1937,9 @@ def replay(ctx, case):
             ctx.violation(case, finding=dev)
         return
     if 'pair' in case:
-        recs, conv, res, _ = gc_records([case['pair']])
-        what = lambda why: gc_what(case['pair'], conv[0], res, 0, why)
+        single = bool((case.get('record') or {}).get('single'))
+        recs, conv, res, _ = gc_records([case['pair']], single=single)
+        what = lambda why: gc_what(case['pair'], conv[0], res, 0, why, single)
     else:
         inf = case['probe']
         recs = [_reprobe(inf, case['record'])]
@@ -1853,18 +2012,20 @@ def _reprobe(inf, old):
             x2a(a, False)
         rec.update(same=a.tobytes() == before)
         return rec
+    dist = [inf['dist_pc']] if isinstance(inf.get('dist_pc'), float) and inf['dist_pc'] else None
     if k == 'rt-icrs':
-        mu, nu = to_munu(inf['stripe'], [inf['ra']], [inf['dec']])
+        mu, nu = to_munu(inf['stripe'], [inf['ra']], [inf['dec']], dist)
         ra, dec = to_icrs(inf['stripe'], mu, nu)
         isnan = bool(np.isnan([mu[0], nu[0], ra[0], dec[0]]).any())
         rec.update(nan=isnan, disc=CAP if isnan else ndeg(deg_sep(inf['ra'], inf['dec'], ra[0], dec[0])[()]))
     elif k == 'rt-munu':
-        ra, dec = to_icrs(inf['stripe'], [inf['mu']], [inf['nu']])
-        mu, nu = to_munu(inf['stripe'], ra, dec)
+        ra, dec = to_icrs(inf['stripe'], [inf['mu']], [inf['nu']], dist)
+        mu, nu = to_munu(inf['stripe'], ra, dec, dist)
         isnan = bool(np.isnan([mu[0], nu[0], ra[0], dec[0]]).any())
         rec.update(nan=isnan, disc=CAP if isnan else ndeg(deg_sep(inf['mu'], inf['nu'], mu[0], nu[0])[()]))
     elif k == 'iso':
-        mu, nu = to_munu(inf['stripe'], [inf['p'][0], inf['q'][0]], [inf['p'][1], inf['q'][1]])
+        dd = inf.get('dist_pc')
+        mu, nu = to_munu(inf['stripe'], [inf['p'][0], inf['q'][0]], [inf['p'][1], inf['q'][1]], dd if dd and all(dd) else None)
         isnan = bool(np.isnan([mu, nu]).any())
         d = deg_sep(inf['p'][0], inf['p'][1], inf['q'][0], inf['q'][1])[()] - deg_sep(mu[0], nu[0], mu[1], nu[1])[()]
         rec.update(nan=isnan, disc=CAP if isnan else ndeg(d))
@@ -1874,7 +2035,7 @@ def _reprobe(inf, old):
         off = L(90) - deg_sep(ra[0], dec[0], inf['circle_pole'][0], inf['circle_pole'][1])[()]
         rec.update(nan=isnan, disc=CAP if isnan else ndeg(off))
     elif k == 'nu0-inv':
-        mu, nu = to_munu(inf['stripe'], [inf['ra']], [inf['dec']])
+        mu, nu = to_munu(inf['stripe'], [inf['ra']], [inf['dec']], dist)
         isnan = bool(np.isnan([mu[0], nu[0]]).any())
         rec.update(nan=isnan, disc=CAP if isnan else ndeg(nu[0]))
     elif k == 'a2x2a':
